@@ -263,6 +263,9 @@ func init() {
 			return r
 		},
 		"sort.Slice": modelSortSlice,
+		"sort.SliceStable": func(in *Interp, fn *ssa.Function, a []Value) Value {
+			return modelSortSliceWith(in, a, true)
+		},
 		"fmt.Sprintf": func(in *Interp, fn *ssa.Function, a []Value) Value {
 			format := concreteStr(a[0])
 			var args []Value
@@ -516,6 +519,11 @@ func (in *Interp) recordKnown(id, kfID string, cond *Term) {
 // closure for every comparison; symbolic comparison results fork the path. The interpreter's backing
 // array is brought up to date before every comparison so that `less` sees the current arrangement.
 func modelSortSlice(in *Interp, fn *ssa.Function, a []Value) Value {
+	return modelSortSliceWith(in, a, false)
+}
+
+// modelSortSliceWith: sort.Slice, or sort.SliceStable (the toolchain's insertion/symmerge sort) when stable.
+func modelSortSliceWith(in *Interp, a []Value, stable bool) Value {
 	iv := a[0].(IfaceV)
 	s, ok := iv.v.(SliceV)
 	if !ok {
@@ -526,7 +534,7 @@ func modelSortSlice(in *Interp, fn *ssa.Function, a []Value) Value {
 	if n < 2 {
 		return nil
 	}
-	if in.cfg.SortFrontOnlyAbove > 0 && n > in.cfg.SortFrontOnlyAbove {
+	if !stable && in.cfg.SortFrontOnlyAbove > 0 && n > in.cfg.SortFrontOnlyAbove {
 		return modelSortSliceFront(in, s, less)
 	}
 	elems := make([]Value, n)
@@ -548,11 +556,16 @@ func modelSortSlice(in *Interp, fn *ssa.Function, a []Value) Value {
 		copy(arr[s.off:s.off+n], elems)
 		s.c.v = arr
 	}
-	sort.Slice(elems, func(i, j int) bool {
+	cmp := func(i, j int) bool {
 		sync()
 		r := in.invoke(nil, less, []Value{in.ts.BV(uint64(i), 64), in.ts.BV(uint64(j), 64)}, nil, nil).(*Term)
 		return in.branch(r)
-	})
+	}
+	if stable {
+		sort.SliceStable(elems, cmp)
+	} else {
+		sort.Slice(elems, cmp)
+	}
 	sync()
 	return nil
 }
